@@ -259,7 +259,7 @@ Definition kern_run (w : world) (o : opts) (t : target) (args : list string) : o
           let ob := {| ob_argv0 := argv0; ob_args := args; ob_name := "__main__";
                        ob_file := f; ob_path0 := hd empty_path sp3; ob_cwd := cwd |} in
           Some ([ESetArgv] ++ ev1 ++ ev2 ++ ev3 ++ ev4
-                ++ (if timed then [ETimerCreate; ETimerCreate] else [])
+                ++ (if timed then [ETimerCreate] else [])     (* one RepeatedTimer (since fix 204c2e5) *)
                 ++ [EProgram (run_mode o t) ob]
                 ++ (if timed then [ETimerStop] else [])
                 ++ [EDump (outfile_of o t); EReport o.(o_view); EUninstallGlobal])
